@@ -18,6 +18,7 @@ Streams
 import ast
 import inspect
 import io
+import json
 import logging
 import os
 import struct
@@ -259,8 +260,9 @@ def _codes_table():
 
 
 def mk_img(fmt, kind, endian, off, data_hex, exts, dshape=None, ddt='u1', route='fm', stream='img',
-           labels=None):
-    """exts: list of [code:int, contenthex]; `labels`: per extension True = construct with the label string."""
+           labels=None, hist=None):
+    """exts: list of [code:int, contenthex] = the contents at the moment of the (final) save; `labels`: per
+    extension True = construct with the label string; `hist`: how the header got there (see _build_hist)."""
     ex = ' '.join(f'{int(c)}:{h}' for c, h in exts)
     line = f'C11 img {fmt} {kind} {"L" if endian == "<" else "B"} {off} {data_hex} {len(exts)}' + (' ' + ex if ex else '')
     nb = len(unhx(data_hex))
@@ -268,6 +270,9 @@ def mk_img(fmt, kind, endian, off, data_hex, exts, dshape=None, ddt='u1', route=
             'exts': [[int(c), h] for c, h in exts], 'dshape': list(dshape) if dshape else [nb], 'ddt': ddt,
             'route': route, 'stream': stream, 'labels': list(labels) if labels else [False] * len(exts)}
     key = None if (not exts and not off) else (fmt, kind, endian, off, tuple((int(c), h) for c, h in exts))
+    if hist:
+        data['hist'] = hist
+        key = key + (json.dumps(hist, sort_keys=True),) if key else None
     return Case(line, data, key, stream)
 
 
@@ -306,7 +311,8 @@ def case_from_data(d):
         return mk_f32(d['n'], d['op'] == 'f32n')
     if d['op'] == 'img':
         return mk_img(d['fmt'], d['kind'], d['endian'], d['off'], d['data'], d['exts'], d.get('dshape'),
-                      d.get('ddt', 'u1'), d.get('route', 'fm'), d.get('stream', 'img'), d.get('labels'))
+                      d.get('ddt', 'u1'), d.get('route', 'fm'), d.get('stream', 'img'), d.get('labels'),
+                      d.get('hist'))
     if d['op'] == 'parse':
         return mk_parse(d['endian'], d['size'], d['raw'], d.get('stream', 'parse'))
     if d['op'] == 'ser':
@@ -343,8 +349,103 @@ def _ext_list(exts):
     return '[' + ','.join(f'{int(c)}:{hx(b)}' for c, b in exts) + ']'
 
 
+NATIVE = '<' if sys.byteorder == 'little' else '>'
+
+
+def _mut_ext_class():
+    """an extension type with a MUTABLE runtime object (a bytearray), like the CIFTI / DICOM handlers have"""
+    from nibabel import nifti1
+
+    class MutExt(nifti1.Nifti1Extension):
+        def _unmangle(self, value):
+            return bytearray(value)
+
+        def _mangle(self, value):
+            return bytes(value)
+    return MutExt
+
+
+def _apply_edit(mode, ext, step):
+    """edit the runtime object of `ext` IN PLACE (never touches ext._raw / ext.content)"""
+    obj = ext.get_content()
+    if mode == 'obj':
+        obj[:] = unhx(step['final'])
+    elif mode == 'cifti':
+        obj.matrix.metadata[step['key']] = step['value']
+    elif mode == 'dicom':
+        obj.PatientID = step['value']
+    else:
+        raise ValueError(mode)
+
+
+def _mangled_now(ext):
+    """serialised form of the CURRENT runtime object, computed without going through ext.content / _sync"""
+    return bytes(ext._mangle(ext.get_content()))
+
+
+def _build_hist(d):
+    """multi-step history: an image of class/byte order `pre` gets the INITIAL extensions, is (optionally) saved and
+    loaded, the runtime objects of some extensions are edited in place, the header moves (optionally) to another
+    image class, and only then comes the save that the case observes.  d['exts'] are the contents at that moment."""
+    from nibabel import nifti1
+    from nibabel.cifti2.parse_cifti2 import Cifti2Extension
+    h = d['hist']
+    mode, pre, steps = h['mode'], h['pre'], h['steps']
+    klass, hsz = _klasses(d['fmt'], d['kind'])
+    kA, _ = _klasses(pre['fmt'], pre['kind'])
+    arr = _data_array(d)
+    hdrA = kA.header_class(endianness=pre['endian'])
+    hdrA.set_data_dtype(arr.dtype)
+    aff = np.diag([2.0, 3.0, 4.0, 1.0])
+    imgA = kA(arr, aff, hdrA)
+    MutExt = _mut_ext_class()
+    for (code, fin), step in zip(d['exts'], steps):
+        if step is None:
+            ext = nifti1.Nifti1Extension(code, unhx(fin))
+        else:
+            init = unhx(step['init'])
+            if mode == 'obj':
+                ext = MutExt(code, init)
+            elif mode == 'cifti':
+                ext = Cifti2Extension(code, init)
+            else:
+                ext = nifti1.Nifti1DicomExtension(code, init)
+        imgA.header.extensions.append(ext)
+    if h['load']:
+        fm = kA.make_file_map()
+        for k in fm:
+            fm[k].fileobj = io.BytesIO()
+        imgA.to_file_map(fm)
+        for k in fm:
+            fm[k].fileobj.seek(0)
+        imgB = kA.from_file_map(fm)
+    else:
+        imgB = imgA
+    if len(imgB.header.extensions) != len(steps):
+        raise RuntimeError('harness: first stage lost extensions')
+    for ext, step in zip(imgB.header.extensions, steps):
+        if step is not None:
+            if h.get('touch'):
+                ext.get_sizeondisk()                 # an earlier size query must not be remembered
+            _apply_edit(mode, ext, step)
+    for ext, (code, fin), step in zip(imgB.header.extensions, d['exts'], steps):
+        if step is not None and _mangled_now(ext) != unhx(fin):
+            raise RuntimeError('harness: edited object does not serialise to the recorded final content')
+    if klass is kA and not h['load']:
+        img = imgB
+    else:
+        img = klass(arr, aff, header=imgB.header)
+    if img.header.endianness != d['endian']:
+        raise RuntimeError('harness: final header endianness differs from the case')
+    if d['off']:
+        img.header['vox_offset'] = d['off']
+    return klass, hsz, img, arr
+
+
 def _build(d):
     from nibabel import nifti1
+    if d.get('hist'):
+        return _build_hist(d)
     klass, hsz = _klasses(d['fmt'], d['kind'])
     arr = _data_array(d)
     hdr = klass.header_class(endianness=d['endian'])
@@ -789,6 +890,22 @@ def shrink_candidates(case):
     d = case.data
     if d['op'] != 'img':
         return
+    if d.get('hist'):
+        h = d['hist']
+        for i in range(len(d['exts'])):
+            if len(d['exts']) > 1 and any(st is not None for j, st in enumerate(h['steps']) if j != i):
+                dd = dict(d)
+                dd['exts'] = d['exts'][:i] + d['exts'][i + 1:]
+                dd['labels'] = [False] * len(dd['exts'])
+                dd['hist'] = dict(h, steps=h['steps'][:i] + h['steps'][i + 1:])
+                if dd['off'] and dd['kind'] == 's':
+                    dd['off'] = 0
+                yield case_from_data(dd)
+        if len(unhx(d['data'])) > 1 or d.get('ddt', 'u1') != 'u1':
+            dd = dict(d)
+            dd.update(data='07', dshape=[1], ddt='u1')
+            yield case_from_data(dd)
+        return
     exts = d['exts']
     labels = d.get('labels') or [False] * len(exts)
 
@@ -941,6 +1058,83 @@ def rand_parse_case(rng, table):
     return mk_parse(endian, size, hx(raw))
 
 
+def _cifti_xml(meta):
+    from nibabel.cifti2 import cifti2 as c2
+    m = c2.Cifti2Matrix()
+    m.metadata = c2.Cifti2MetaData(meta)
+    return c2.Cifti2Header(m).to_xml()
+
+
+def rand_hist_case(rng, tier):
+    """object extensions edited in place between a load / construction and the save (CIFTI, DICOM, generic mutable
+    object), optionally carried to another image class through from_header"""
+    from nibabel import nifti1
+    from nibabel.cifti2.parse_cifti2 import Cifti2Extension
+    mode = rng.choice(['obj', 'obj', 'obj', 'cifti', 'dicom'])
+    fmt, kind = rng.choice([1, 2]), rng.choice('sssp')
+    same = rng.random() < 0.5
+    load = True if mode != 'obj' else False
+    if same:
+        pre = {'fmt': fmt, 'kind': kind, 'endian': rng.choice('<>')}
+        # a loaded header handed to a new image of the same class keeps its byte order (header.copy())
+        endian = pre['endian']
+    else:
+        pre = {'fmt': rng.choice([1, 2]), 'kind': rng.choice('sp'), 'endian': rng.choice('<>')}
+        if (pre['fmt'], pre['kind']) == (fmt, kind):
+            endian = pre['endian']
+        else:
+            endian = NATIVE                              # from_header into another class: fresh native header
+    k = rng.choice([1, 1, 2, 3])
+    which = rng.randrange(k)
+    exts, steps = [], []
+    for i in range(k):
+        edited = (i == which) or (mode == 'obj' and rng.random() < 0.3)
+        if not edited:
+            c = rng.choice([4, 6, 44, 99, 9998, -3])
+            b = rand_content(rng, c)
+            if load:
+                b = b.rstrip(b'\x00')                    # what the first load hands on
+            exts.append([c, hx(b)])
+            steps.append(None)
+        elif mode == 'obj':
+            c = rng.choice([6, 4, 40, 44, 99, 9998, 65536, -7])
+            n0 = rng.randrange(0, 41)
+            grow = rng.choice([1, 3, 8, 15, 16, 17, 20, 40, 70, -1, -9, 0])
+            n1 = max(0, n0 + grow)
+            b0 = bytes(rng.randrange(1, 256) for _ in range(n0))
+            b1 = bytes(rng.randrange(1, 256) for _ in range(n1))
+            exts.append([c, hx(b1)])
+            steps.append({'init': hx(b0), 'final': hx(b1)})
+        elif mode == 'cifti':
+            meta = {'a': 'b' * rng.randrange(0, 20)}
+            x0 = _cifti_xml(meta)
+            key, value = 'k' * rng.randrange(1, 4), 'v' * rng.choice([0, 1, 5, 11, 16, 20, 33, 40, 70])
+            ext = Cifti2Extension(32, x0)
+            obj = ext.get_content()
+            obj.matrix.metadata[key] = value
+            exts.append([32, hx(obj.to_xml())])
+            steps.append({'init': hx(x0), 'key': key, 'value': value})
+        else:
+            import pydicom
+            ds = pydicom.Dataset()
+            ds.PatientName = 'N' * rng.randrange(1, 12)
+            x0 = bytes(nifti1.Nifti1DicomExtension(2, ds).content)
+            value = 'x' * rng.choice([1, 2, 7, 12, 16, 21, 30, 40, 64])
+            ext = nifti1.Nifti1DicomExtension(2, x0)
+            obj = ext.get_content()
+            obj.PatientID = value
+            exts.append([2, hx(bytes(ext._mangle(obj)))])
+            steps.append({'init': hx(x0), 'value': value})
+    dh, shape, ddt = rand_data(rng)
+    mn = minimum_offset(fmt, exts)
+    if kind == 's':
+        off = rng.choice([0, 0, 0, mn, mn + 16, mn + 48])
+    else:
+        off = rng.choice([0, 0, 16, 7])
+    hist = {'mode': mode, 'pre': pre, 'steps': steps, 'load': load, 'touch': rng.random() < 0.5}
+    return mk_img(fmt, kind, endian, off, dh, exts, shape, ddt, 'fm', 'hist', None, hist)
+
+
 def f32_value(rng):
     """natural numbers that stress float32 rounding: around powers of two, exact ties, near ties, multiples of 16"""
     # below 2^53 only: NumPy converts a Python int through float64 first (exact there; double rounding above),
@@ -1034,6 +1228,9 @@ def cases(rng, tier):
                 if n % 4 == 0 or tier == 'thorough':
                     out.append(mk_img(fmt, 'p', endian, 0, '0102030405', [[4, hx(b)], [40, hx(b[:n // 2] + b'\0')]],
                                       (5,), 'u1', 'fm', 'sweep'))
+    # ---- histories: object extensions edited in place before the save, header carried across image classes
+    for _ in range({'quick': 250, 'thorough': 4000, 'search': 1200}[tier]):
+        out.append(rand_hist_case(rng, tier))
     # ---- random images
     nimg = {'quick': 1500, 'thorough': 30000, 'search': 4000}[tier]
     for _ in range(nimg):
